@@ -93,7 +93,9 @@ func getCertificateInfo(c *x509.Certificate) (Info, error) {
 		Attribute{"Extended key usage", strings.Join(x509EKUs(c.ExtKeyUsage, c.UnknownExtKeyUsage), ", ")},
 	)
 
-	if c.BasicConstraintsValid && c.IsCA && (c.MaxPathLen != 0 || c.MaxPathLenZero) {
+	// crypto/x509 reports an absent pathLenConstraint as MaxPathLen == -1 (and, for
+	// templates, as 0 without MaxPathLenZero): only an encoded constraint is shown.
+	if c.BasicConstraintsValid && c.IsCA && (c.MaxPathLen > 0 || (c.MaxPathLen == 0 && c.MaxPathLenZero)) {
 		info.Attributes = append(info.Attributes, Attribute{"Max path length", fmt.Sprintf("%d", c.MaxPathLen)})
 	}
 
